@@ -13,6 +13,7 @@ package main
 import (
 	"context"
 	"fmt"
+	"github.com/TarsCloud/TarsGo/tars/util/current"
 	"math/rand"
 	"os"
 	"strings"
@@ -183,7 +184,17 @@ func runScript(id int, r *rand.Rand, nSteps int) {
 	doCall := func() bool {
 		callN++
 		tok := fmt.Sprintf("c15-%d-%d", id, callN)
-		_, _, err := cl.Call(context.Background(), "echo", []byte(tok), false)
+		// routing kind: round robin, mod hash, consistent hash — the health rules are the same for all
+		ctx := context.Background()
+		if k := callN % 4; k == 1 || k == 3 {
+			ctx = current.ContextWithClientCurrent(ctx)
+			current.SetClientHash(ctx, k/2, uint32(callN)*2654435761)
+		}
+		before := map[string]int32{}
+		for _, a := range cl.SP.VerifAdapters() {
+			before[a.Key] = a.SendCount + a.FailCount
+		}
+		_, _, err := cl.Call(ctx, "echo", []byte(tok), false)
 		class := rpcw.ErrClass(err)
 		target := -1
 		defer func() {
@@ -203,6 +214,22 @@ func runScript(id int, r *rand.Rand, nSteps int) {
 				if strings.Contains(err.Error(), fmt.Sprintf("%s:%d", e.host, e.port)) {
 					target = i
 				}
+			}
+		}
+		if target < 0 && err != nil {
+			// attribution through the adapters' counters: which known endpoint was the call tried on?
+			for _, a := range cl.SP.VerifAdapters() {
+				if a.SendCount+a.FailCount != before[a.Key] {
+					for i, e := range eps {
+						if a.Key == e.key {
+							target = i
+						}
+					}
+				}
+			}
+			if target < 0 && !anyActive() {
+				run.Violation("P6-calls-fail-outright", "all-blocked:not-attempted", fmt.Sprintf("every endpoint is blocked and call %s (routing kind %d) failed with %q without having been tried on any of the registry's endpoints", tok, callN%4, err), wit(nil))
+				return false
 			}
 		}
 		if class == "no-adapter" || strings.HasPrefix(class, "other:no adapter") {
